@@ -64,7 +64,8 @@ from icalendar.parser_tools import (
 from .timezone import tzid_from_dt, tzid_from_tzinfo, tzp
 
 DURATION_REGEX = re.compile(r'([-+]?)P(?:(\d+)W)?(?:(\d+)D)?'
-                            r'(?:T(?:(\d+)H)?(?:(\d+)M)?(?:(\d+)S)?)?$')
+                            r'(?:T(?:(\d+)H)?(?:(\d+)M)?(?:(\d+)S)?)?$',
+                            re.IGNORECASE)
 
 WEEKDAY_RULE = re.compile(r'(?P<signal>[+-]?)(?P<relative>[\d]{0,2})'
                           r'(?P<weekday>[\w]{2})$')
@@ -723,7 +724,7 @@ class vDatetime(TimeBase):
                 return tzp.localize(datetime(*timetuple), tzinfo)
             elif not ical[15:]:
                 return datetime(*timetuple)
-            elif ical[15:16] == 'Z':
+            elif ical[15:16] in ('Z', 'z'):
                 return tzp.localize_utc(datetime(*timetuple))
             else:
                 raise ValueError(ical)
@@ -1503,7 +1504,7 @@ class vTime(TimeBase):
         # TODO: timezone support
         try:
             timetuple = (int(ical[:2]), int(ical[2:4]), int(ical[4:6]))
-            if ical[6:7] == 'Z':
+            if ical[6:7] in ('Z', 'z'):
                 # FORM #2: UTC TIME
                 return tzp.localize_utc(datetime(1970, 1, 1, *timetuple)).timetz()
             return time(*timetuple)
